@@ -146,7 +146,7 @@ def concat_case(ctx, specs, axis, by='name', align=False, sort=False, share=None
     arrs, refs = mk_inputs(ctx, specs, [d for d in (share or []) if d != specs[0][0][axis]], kinds)
     dims0 = list(refs[0].dims)
     cdim = dims0[axis]
-    kw = {'axis': cdim if by == 'name' else axis}
+    kw = {'axis': cdim if by == 'name' else (axis if by == 'pos' else axis - len(dims0))}
     if align:
         kw['align'] = True
     if sort:
@@ -282,6 +282,10 @@ def templates():
     for nin in (1, 2, 3):
         for n in (1, 2):
             add('concat-1d-%din-n%d' % (nin, n), 'concat_case', cost=0.3, specs=[[[X], [n]]] * nin, axis=0)
+    # the concatenation axis given as a negative position (NumPy's convention)
+    add('concat-1d-negpos', 'concat_case', cost=0.3, specs=[[[X], [2]], [[X], [1]]], axis=0, by='negpos')
+    add('concat-2d-negpos-0', 'concat_case', cost=1, specs=[[[X, Y], [2, 2]], [[X, Y], [1, 2]]], axis=0, by='negpos', share=[Y])
+    add('concat-2d-negpos-1', 'concat_case', cost=1, specs=[[[X, Y], [2, 2]], [[X, Y], [2, 1]]], axis=1, by='negpos', share=[X])
     add('concat-1d-mixed-sizes', 'concat_case', cost=0.3, specs=[[[X], [2]], [[X], [1]], [[X], [3]]], axis=0, by='pos')
     for align in (False, True):
         for by in ('name', 'pos'):
